@@ -331,9 +331,9 @@ static std::vector<Family> families() {
   f.push_back({4, 1, 4, U, U, 1, false});
   f.push_back({4, 2, 4, U, U, 1, true});
   f.push_back({4, 1, 5, U, U, 1, true});
-  f.push_back({4, 3, 1, T, T, 1, true});
+  f.push_back({4, 3, 1, U, T, 1, true});
   f.push_back({4, 2, 2, S, U, 1, true});
-  f.push_back({4, 1, 3, T, T, 1, true});
+  f.push_back({4, 1, 3, T, U, 1, true});
   return f;
 }
 
